@@ -389,7 +389,7 @@ func (ch c16) runForced(c *core.Ctx, s c16sched, idx int) {
 	}
 	cl.C.Quiesce()
 	// boundary: queries written only after every Close returned must never reach a callback
-	cl.C.Send(pg.Query("after-close-same-connection"))
+	cl.C.Send(pg.Query([]string{"after-close-same-connection", "-- ping\nafter-close", "; after-close", "--\nafter-close-same-connection", "/* ping */ after-close"}[idx%5]))
 	cl.C.Quiesce()
 	c.Count("post_close_queries", 1)
 	// let in-flight callbacks (if any, on a defective tree) surface
